@@ -24,7 +24,7 @@ namespace worlds
     bool area_only = false;              // no plume, slab or fault
     bool multi_ridge = false;            // oceanic plate: two oblique ridge segments offset along a transform fault, spreading velocity varying along them
     int slab_model = 0;                  // 0: plate model; 1: mass conserving; 2: mass conserving with a spline of 4 points
-    bool second_slab = false;            // a second, short slab in the north-west (mass conserving, spline of 9 points) dipping west
+    bool second_slab = false;            // a second, short slab in the north-west (mass conserving, spline of 5 points) dipping west
     bool long_traces = false;            // three small faults and a small slab on long traces in different directions (along x, along y, diagonal)
     bool many_depth_points = false;      // the continental plate's max depth is given at 20 points in general position
     bool partial = false;                // features only partly replace what the features before them left: 'add' operations, slab / fault models limited to part of the thickness
@@ -50,27 +50,32 @@ namespace worlds
     auto sq = [&](double x0, double x1, double y0, double y1)
     { return pts({M(x0,y0), M(x1,y0), M(x1,y1), M(x0,y1)}); };
     auto P = [&](double x, double y) { return pt(M(x, y)); };
+    // depth surfaces given at 30 pseudo-random points each (fixed sequence): points in general position, so that the triangulation is unique
+    auto many_points = [&](double x0, double x1, double y0, double y1, double v0, double v1, unsigned seed, const std::string &dflt)
+    {
+      std::string out = "[[" + dflt + "]";
+      unsigned long long st = seed;
+      auto rnd = [&]() { st = st * 6364136223846793005ULL + 1442695040888963407ULL; return static_cast<double>((st >> 33) % 1000003) / 1000003.0; };
+      for (int i = 0; i < 30; ++i)
+        {
+          const double x = x0 + 0.15 + (x1 - x0 - 0.3) * rnd(), y = y0 + 0.15 + (y1 - y0 - 0.3) * rnd(), v = v0 + (v1 - v0) * rnd();
+          out += ",[" + num(std::round(v)) + ",[" + P(std::round(x*1000)/1000, std::round(y*1000)/1000) + "]]";
+        }
+      return out + "]";
+    };
+    const std::string many = o.many_depth_points ? many_points(-5, 0, -5, 5, 1.0e5, 2.2e5, 11, "1.5e5") : std::string();
     std::vector<std::string> f;
-    f.push_back("{\"model\":\"mantle layer\",\"name\":\"ML\",\"min depth\":" + (o.depth_points ? "[[1e5],[1.6e5,[" + P(-2.5,-2.5) + "," + P(3,1) + "]],[0.7e5,[" + P(2,-3) + "]]]" : std::string("1e5")) + ",\"max depth\":4e5,\"coordinates\":" + sq(-5,5,-5,5) +
+    f.push_back("{\"model\":\"mantle layer\",\"name\":\"ML\",\"min depth\":" + (o.many_depth_points ? many_points(-5, 5, -5, 5, 0.6e5, 1.4e5, 23, "1e5") : o.depth_points ? "[[1e5],[1.6e5,[" + P(-2.5,-2.5) + "," + P(3,1) + "]],[0.7e5,[" + P(2,-3) + "]]]" : std::string("1e5")) + ",\"max depth\":4e5,\"coordinates\":" + sq(-5,5,-5,5) +
                 ",\"temperature models\":[{\"model\":\"linear\",\"min depth\":1e5,\"max depth\":4e5,\"top temperature\":1500,\"bottom temperature\":1700}]"
                 ",\"composition models\":[{\"model\":\"uniform\",\"compositions\":[2]}]"
                 ",\"grains models\":[" + uniform_grains("[0,1]", 2, 10) + "]"
                 ",\"velocity models\":[{\"model\":\"uniform raw\",\"velocity\":[0.01,0.02,0.03]}]}");
-    std::string many;
-    if (o.many_depth_points)
-      {
-        const double Q[20][3] = {{-4.31,-4.07,1.1e5},{-3.62,-2.83,1.9e5},{-2.95,-4.41,1.3e5},{-1.87,-3.36,2.2e5},{-0.73,-4.22,1.2e5},{-4.52,-1.64,1.7e5},{-3.18,-0.91,1.0e5},{-2.21,-1.77,2.0e5},{-1.09,-0.58,1.4e5},{-0.41,-2.13,1.8e5},
-                                 {-4.07,0.83,2.1e5},{-2.84,1.46,1.15e5},{-1.66,0.37,1.6e5},{-0.62,1.92,1.25e5},{-3.77,2.71,1.45e5},{-2.38,3.29,1.95e5},{-1.21,2.64,1.05e5},{-4.44,4.16,1.35e5},{-3.03,4.48,1.75e5},{-0.88,4.02,2.05e5}};
-        many = "[[1.5e5]";
-        for (auto &q : Q) many += ",[" + num(q[2]) + ",[" + P(q[0], q[1]) + "]]";
-        many += "]";
-      }
     f.push_back("{\"model\":\"continental plate\",\"name\":\"CP\",\"max depth\":" + (o.many_depth_points ? many : o.depth_points ? "[[1.5e5],[0.9e5,[" + P(-2.5,0) + "," + P(-5,5) + "]],[2.1e5,[" + P(-1,-3) + "]]]" : std::string("1.5e5")) + ",\"coordinates\":" + sq(-5,0,-5,5) +
                 ",\"temperature models\":[{\"model\":\"linear\",\"max depth\":1.5e5,\"top temperature\":300,\"bottom temperature\":1400" + std::string(o.partial ? ",\"operation\":\"add\"" : "") + "}]"
                 ",\"composition models\":[{\"model\":\"uniform\",\"compositions\":[0]" + std::string(o.partial ? ",\"operation\":\"add\"" : "") + "}]"
                 ",\"grains models\":[" + uniform_grains("[0]", 1, 15) + (o.random_models ? ",{\"model\":\"random uniform distribution\",\"compositions\":[1],\"grain sizes\":[-1],\"normalize grain sizes\":[true]}" : "") + "]"
                 ",\"velocity models\":[{\"model\":\"uniform raw\",\"velocity\":[-0.04,0.05,0.001]}]}");
-    f.push_back("{\"model\":\"oceanic plate\",\"name\":\"OP\",\"max depth\":1e5,\"coordinates\":" + sq(0,5,-5,5) +
+    f.push_back("{\"model\":\"oceanic plate\",\"name\":\"OP\",\"max depth\":" + (o.many_depth_points ? many_points(0, 5, -5, 5, 0.7e5, 1.3e5, 37, "1e5") : std::string("1e5")) + ",\"coordinates\":" + sq(0,5,-5,5) +
                 ",\"temperature models\":[{\"model\":\"half space model\",\"max depth\":1e5,\"top temperature\":280,\"bottom temperature\":1600,"
                 + (o.multi_ridge ? "\"spreading velocity\":[[0,[[0.03,0.05],[0.02,0.04]]]],\"ridge coordinates\":[[" + P(4.5,-6) + "," + P(4.0,0.25) + "],[" + P(3.0,-0.25) + "," + P(3.5,6) + "]]}]"
                    : "\"spreading velocity\":0.03,\"ridge coordinates\":[[" + P(4.5,-6) + "," + P(4.5,6) + "]]}]") +
@@ -89,7 +94,7 @@ namespace worlds
                 ",\"segments\":[{\"length\":2e5,\"thickness\":[8e4],\"angle\":[30,60]},{\"length\":1.5e5,\"thickness\":[8e4,6e4],\"angle\":[60]}]"
                 ",\"temperature models\":[" + (o.slab_model == 0 ? "{\"model\":\"plate model\",\"density\":3300,\"plate velocity\":0.02,\"adiabatic heating\":" + std::string(o.variant == 1 ? "false" : "true") + std::string(o.partial ? ",\"max distance slab top\":3.5e4" : "") + "}"
                                                 : "{\"model\":\"mass conserving\",\"density\":3300,\"spreading velocity\":0.05,\"subducting velocity\":0.05,\"ridge coordinates\":[[" + P(-4.5,-6) + "," + P(-4.5,6) + "]],\"coupling depth\":8e4,\"taper distance\":5e4,"
-                                                "\"min distance slab top\":-1e5,\"max distance slab top\":1.5e5" + std::string(o.slab_model == 2 ? ",\"apply spline\":true,\"number of points in spline\":4" : "") + "}") + "]"
+                                                "\"min distance slab top\":-1e5,\"max distance slab top\":8e4" + std::string(o.slab_model == 2 ? ",\"apply spline\":true,\"number of points in spline\":4" : "") + "}") + "]"
                 ",\"composition models\":[{\"model\":\"uniform\",\"compositions\":[0,2],\"fractions\":[0.5,0.5]" + std::string(o.partial ? ",\"max distance slab top\":5e4" : "") + "}]"
                 ",\"grains models\":[" + uniform_grains("[0]", 1, 45) + "]"
                 ",\"velocity models\":[{\"model\":\"uniform raw\",\"velocity\":[0.03,0,-0.03]}]}");
@@ -103,7 +108,7 @@ namespace worlds
       f.push_back("{\"model\":\"subducting plate\",\"name\":\"SL2\",\"coordinates\":[" + P(-3.5,2.5) + "," + P(-3.4,4.5) + "],\"dip point\":" + P(-20,3) +
                   ",\"segments\":[{\"length\":2.5e5,\"thickness\":[9e4],\"top truncation\":[-5e4],\"angle\":[50]}]"
                   ",\"temperature models\":[{\"model\":\"mass conserving\",\"density\":3300,\"spreading velocity\":0.03,\"subducting velocity\":0.04,\"ridge coordinates\":[[" + P(4.5,-6) + "," + P(4.5,6) + "]],\"coupling depth\":6e4,\"taper distance\":4e4,"
-                  "\"min distance slab top\":-5e4,\"max distance slab top\":1.2e5,\"apply spline\":true,\"number of points in spline\":9}]"
+                  "\"min distance slab top\":-5e4,\"max distance slab top\":9e4,\"apply spline\":true,\"number of points in spline\":5}]"
                   ",\"composition models\":[{\"model\":\"uniform\",\"compositions\":[2]}]}");
     if (o.area_only) f.resize(3);
     if (o.long_traces)
